@@ -280,7 +280,7 @@ PROPS['C04'] = {
     'note': 'Models: Model/CertDer, CmsDer, CrlDer, SigMsgDer, CsrDer, RtaDer, Tal, Ber + Gen/BerModel (regenerated from the DER model text on every run, with Gen/BerEq: fooM false = foo for all 57 definitions). One finding is recorded as known (see KNOWN_FINDINGS.txt): re-encoding any value decoded in relaxed mode panics inside bcder (Mode::Der requested for Mode::Ber captures). Time is bounded only by the generous watchdog, never by a wall-clock threshold.',
     'shards': {'quick': 8, 'thorough': 16},
     'budget': {'quick': 900, 'thorough': 10800},
-    'rule': 'per run about 34k (thorough 300k) decoder cases compared field by field with the models: certd 7.4k, cmsd 6.3k, crld 2.3k, idcd 1.1k, smsgd 2.6k, csrd 1.6k (both request types, 60 hand-made extension / attribute / envelope variations), keyd 0.9k, tald 0.3k (50 hand-made locators: comment lines, line ends, URI shapes, Base64 padding and unused bits), rtad 1.4k (five library-built attestations with 0-3 certificates, CRLs, 1-3 signers; 110 hand-made variations), relaxed mode cmsdr 4.5k + smsgdr 2.1k (every node of every seed object with every BER liberty it can take one at a time - indefinite length, over-long length, over-long end-of-contents, constructed strings flat and nested, other truth values, set unused bits, indefinite primitive -, random mixes at four rates, liberties on top of the hand-made strict variations, mutants). dec: 37 valid seed objects x 400 (thorough 4000) mutants each through all 19 entry points with every accessor and the re-encoding, every valid object through every other entry point, random inputs, nesting bombs, indefinite and 4 GiB lengths, empty input; peak heap below 64*len + 1 MiB, hangs caught by the watchdog.',
+    'rule': 'per run about 34k (thorough 300k) decoder cases compared field by field with the models: certd 7.4k, cmsd 6.3k, crld 2.3k, idcd 1.1k, smsgd 2.6k, csrd 1.6k (both request types, 60 hand-made extension / attribute / envelope variations), keyd 0.9k, tald 0.3k (50 hand-made locators: comment lines, line ends, URI shapes, Base64 padding and unused bits), rtad 1.4k (five library-built attestations with 0-3 certificates, CRLs, 1-3 signers; 110 hand-made variations), relaxed mode cmsdr 4.5k + smsgdr 2.1k (every node of every seed object with every BER liberty it can take one at a time - indefinite length, over-long length, over-long end-of-contents, constructed strings flat and nested, other truth values, set unused bits, indefinite primitive -, random mixes at four rates, liberties on top of the hand-made strict variations, mutants). dec: 37 valid seed objects x 400 (thorough 4000) mutants each through all 19 entry points with every accessor and the re-encoding - since session 10 each of these 27k (270k) cases is also put to the decoder model of its entry point and accept / reject must agree -, every valid object through every other entry point, random inputs, nesting bombs, indefinite and 4 GiB lengths, empty input; peak heap below 64*len + 1 MiB, hangs caught by the watchdog.',
     'trusted_base': ['bcder / aws-lc / base64 internals beyond the modelled readers (explored, not modelled)', 'the counting allocator and catch_unwind of the harness', 'tools/gen_ber_model.py (textual rewriting of the DER model and of 35 lemma proofs; its output is checked by Lean - a wrong rewriting fails to compile or to prove - and the generated model is compared with the library)'],
     'assumptions': ['a stack overflow or abort would kill the harness process and is reported as a crashed shard'],
 }
